@@ -87,7 +87,13 @@ func parseGlyf(head, maxp, loca, glyf []byte) (glyfInfo, bool) {
 		g := glyf[start:end]
 		nc := int16(binary.BigEndian.Uint16(g))
 		out.glyphs[i].xMin = int16(binary.BigEndian.Uint16(g[2:]))
-		if nc >= 0 {
+		if nc == 0 {
+			// a glyph header without contours: libharfbuzz treats it as an empty glyph
+			out.glyphs[i].kind = glyphKindEmpty
+			out.nEmpty++
+			continue
+		}
+		if nc > 0 {
 			out.glyphs[i].kind = glyphKindSimple
 			continue
 		}
@@ -228,4 +234,71 @@ func avarKnees(avar []byte) [][]float64 {
 		out = append(out, knees)
 	}
 	return out
+}
+
+// ---- COLR (version 1 clip boxes) ----
+
+type clipBox struct{ xMin, yMin, xMax, yMax int16 }
+
+// colrClipBoxes returns the static ClipBox (format 1 or the static part of format 2) of every glyph
+// covered by the COLR v1 ClipList.
+func colrClipBoxes(colr []byte) map[uint32]clipBox {
+	ver, ok := be16(colr, 0)
+	if !ok || ver != 1 {
+		return nil
+	}
+	clipOff, ok := be32(colr, 22)
+	if !ok || clipOff == 0 || int(clipOff)+5 > len(colr) {
+		return nil
+	}
+	list := colr[clipOff:]
+	n, ok := be32(list, 1)
+	if !ok {
+		return nil
+	}
+	out := map[uint32]clipBox{}
+	for i := 0; i < int(n); i++ {
+		p := 5 + 7*i
+		start, ok1 := be16(list, p)
+		end, ok2 := be16(list, p+2)
+		if !ok1 || !ok2 || p+7 > len(list) {
+			break
+		}
+		off := int(list[p+4])<<16 | int(list[p+5])<<8 | int(list[p+6])
+		if off+9 > len(list) {
+			continue
+		}
+		b := list[off:]
+		box := clipBox{int16(binary.BigEndian.Uint16(b[1:])), int16(binary.BigEndian.Uint16(b[3:])), int16(binary.BigEndian.Uint16(b[5:])), int16(binary.BigEndian.Uint16(b[7:]))}
+		for g := uint32(start); g <= uint32(end); g++ {
+			out[g] = box
+		}
+	}
+	return out
+}
+
+// ---- post ----
+
+// postMaxNameIndex returns the largest glyphNameIndex of a version 2.0 post table (ok=false for
+// other versions).
+func postMaxNameIndex(post []byte) (uint16, bool) {
+	v, ok := be32(post, 0)
+	if !ok || v != 0x00020000 {
+		return 0, false
+	}
+	n, ok := be16(post, 32)
+	if !ok {
+		return 0, false
+	}
+	var m uint16
+	for i := 0; i < int(n); i++ {
+		u, ok := be16(post, 34+2*i)
+		if !ok {
+			return 0, false
+		}
+		if u > m {
+			m = u
+		}
+	}
+	return m, true
 }
